@@ -104,6 +104,16 @@ func withoutKF1(kfs []string) []string {
 	return out
 }
 
+// normList applies normXR to every element: values are compared modulo the XRHeader
+// convenience field of known XR block kinds (whether or not Marshal fills it in).
+func normList(ps []rtcp.Packet) []rtcp.Packet {
+	out := make([]rtcp.Packet, len(ps))
+	for i, p := range ps {
+		out[i] = normXR(p)
+	}
+	return out
+}
+
 func c02Value(cs *core.Case, p rtcp.Packet) {
 	k := gen.KindOf(p)
 	b, err, pan := gMarshal(p)
@@ -143,7 +153,7 @@ func c02Value(cs *core.Case, p rtcp.Packet) {
 	}
 	if derr != nil {
 		cs.Fail("own-decoder/error/"+k.String(), det(core.W{"error": errStr(derr)})(), kfs...)
-	} else if !mon.SemEqual(got, want) {
+	} else if !mon.SemEqual(normXR(got), normXR(want)) {
 		attributed := false
 		if wc, ok := want.(*rtcp.CompoundPacket); ok {
 			if sym, any := kf1Symptom([]rtcp.Packet(*wc)); any {
@@ -155,7 +165,7 @@ func c02Value(cs *core.Case, p rtcp.Packet) {
 					if kindsOK {
 						cs.Fail("own-decoder/value/"+k.String(), det(core.W{"decoded": vdump(got)})(), "KF1")
 						attributed = true
-						if !mon.SemEqual([]rtcp.Packet(*gc), sym) {
+						if !mon.SemEqual(normList([]rtcp.Packet(*gc)), normList(sym)) {
 							cs.Fail("own-decoder/value/"+k.String(), det(core.W{"decoded": vdump(got), "expected": vdump(sym)})(), withoutKF1(kfs)...)
 						}
 					}
@@ -216,7 +226,7 @@ func c02Value(cs *core.Case, p rtcp.Packet) {
 		}
 	}
 	dkfs = withoutKF1(dkfs)
-	if !mon.SemEqual(ps, wantList) {
+	if !mon.SemEqual(normList(ps), normList(wantList)) {
 		cs.Fail("datagram/value/"+k.String(), det(core.W{"decoded": vdump(ps), "expected": vdump(wantList)})(), dkfs...)
 		return
 	}
@@ -282,7 +292,7 @@ func c02List(cs *core.Case, list []rtcp.Packet) {
 		cs.Fail("list/error", det(core.W{"error": errStr(uerr)}), kfs...)
 		return
 	}
-	if !mon.SemEqual(ps, want) {
+	if !mon.SemEqual(normList(ps), normList(want)) {
 		sym, any := kf1Symptom(want)
 		kindsOK := any && len(ps) == len(sym)
 		for i := 0; kindsOK && i < len(sym); i++ {
@@ -290,7 +300,7 @@ func c02List(cs *core.Case, list []rtcp.Packet) {
 		}
 		if kindsOK {
 			cs.Fail("list/value", det(core.W{"decoded": vdump(ps)}), "KF1")
-			if !mon.SemEqual(ps, sym) {
+			if !mon.SemEqual(normList(ps), normList(sym)) {
 				cs.Fail("list/value", det(core.W{"decoded": vdump(ps), "expected": vdump(sym)}), withoutKF1(kfs)...)
 				return
 			}
@@ -387,7 +397,7 @@ func c02Rearranged(cs *core.Case, decoded []rtcp.Packet, kfs []string) {
 		return
 	}
 	for i := range ps {
-		if !mon.SemEqual(ps[i], snapPs[i]) {
+		if !mon.SemEqual(normXR(ps[i]), normXR(snapPs[i])) {
 			cs.Fail("list/marshal-modified-packet", det(core.W{"index": i, "before": vdump(snapPs[i]), "after": vdump(ps[i])}), kfs...)
 			return
 		}
